@@ -4,6 +4,7 @@ Env/SlidingTilePuzzle/Lemmas.lean.  `Inv n b` = the board is `n × n`, the store
 board and holds the blank (0).  Actions are `a < 4` (the action spec).
 -/
 import JumanjiModel.Env.SlidingTilePuzzle.Lemmas
+import JumanjiModel.Env.SlidingTilePuzzle.Bounds
 open Jm Jx SlidingTilePuzzle
 
 namespace Props.C04
@@ -167,3 +168,32 @@ theorem sliding_random_move_is_slide (n : Nat) (b : Board) (d : Nat) (h : Inv n 
     (hv : validDraw n b d = true) : randomMove b d = slideB n b d :=
   randomMove_eq_slideB h ((mask_iff_legal n b d).1 hv)
 end Props.C10
+
+namespace Props.C01
+open PzB
+/-- the observation returned by `reset` for ANY tape of possible generator draws (grid size n ≥ 1, time limit ≥ 0): every
+leaf listed in `obsBounds cfg` is present and within its interval: `puzzle` ∈ [0, n²-1], `empty_tile_position` ∈ [0, n-1],
+`action_mask` ∈ [0,1], `step_count` ∈ [0, time_limit] -/
+theorem sliding_tile_puzzle_reset_obs_in_bounds (cfg : Cfg) (hn : 0 < cfg.n) (hT : 0 ≤ cfg.timeLimit) (draws : List Nat)
+    (hv : validDraws cfg.n (startBoard cfg.n) draws = true) :
+    ObsInBounds (obsBounds cfg) (obsLeaves (resetTimeStep cfg.n (genState cfg.n draws)).obs) :=
+  SlidingTilePuzzle.reset_obs_in_bounds cfg _
+    (inRange_of_inv cfg.n _ ((walk_solvable cfg.n draws hv).2.2 hn) (walk_isPermutation cfg.n hn draws hv)) rfl hT
+
+/-- the same for `step`, for every state whose tiles and blank position are in range (`InRange`, an invariant, see below),
+ANY action value (legal or not, in the action space or not) and including the terminal step; the time limit has not been
+reached before the step (`0 ≤ step_count < time_limit`), so that the emitted `step_count ≤ time_limit` -/
+theorem sliding_tile_puzzle_step_obs_in_bounds (cfg : Cfg) (s : State) (a : Int) (h : InRange cfg.n s.board)
+    (hs : 0 ≤ s.stepCount ∧ s.stepCount < cfg.timeLimit) :
+    ObsInBounds (obsBounds cfg) (obsLeaves (step cfg s a).2.obs) :=
+  SlidingTilePuzzle.step_obs_in_bounds cfg s a h hs
+
+/-- `InRange` follows from the invariants of C09/C17 (`Inv` and `IsPermutation`, which hold from `reset` on) and is itself
+preserved by every step -/
+theorem sliding_inRange_invariant (cfg : Cfg) :
+    (∀ b, Inv cfg.n b → IsPermutation cfg.n b.1 → InRange cfg.n b) ∧
+    (∀ (s : State) (a : Int), InRange cfg.n s.board → InRange cfg.n (step cfg s a).1.board) :=
+  ⟨inRange_of_inv cfg.n, step_board_inRange cfg⟩
+
+example : InRange 3 (⟨[[1, 2, 3], [4, 0, 6], [7, 5, 8]], (1, 1), 0⟩ : State).board := by decide
+end Props.C01
